@@ -170,6 +170,10 @@ def program_for(bp, decl, seed, horizon=HORIZON, with_ic=None, region_mode='rand
             prog.append({'op': 'AddVariable', 'sector': ref(s), 'name': 'XTRA', 'desc': 'decorative product', 'eqn': ''})
             prog.append({'op': 'AddTerm', 'sector': ref(s), 'name': 'XTRA',
                          'term': '{%s:LAG_F}*{%s:AlphaFin}' % (ref(s), ref(s))})
+            # a definition that is one requested name (stored as an opaque term) plus the same name added as a term:
+            # twice the lagged wealth, whatever the two spellings resolve to
+            prog.append({'op': 'AddVariable', 'sector': ref(s), 'name': 'TWICE', 'desc': 'decorative sum', 'eqn': '{%s:LAG_F}' % ref(s)})
+            prog.append({'op': 'AddTerm', 'sector': ref(s), 'name': 'TWICE', 'term': '{%s:LAG_F}' % ref(s)})
         if k in ('CentralBank', 'GoldStandardCentralBank') and d['tre'] and not d['trector']:
             pending_tre.append(s)
         for cb in list(pending_tre):
@@ -358,7 +362,8 @@ def observe(bp, decl, seed, horizon=HORIZON, with_ic=None):
           'canonical': not (cl['noncanonical'] or cl['missing'] or cl['extra']),
           'closed': not (cl['dangling'] or cl['ic_undefined']), 'meaning': not meaning_bad,
           'numeraire': numeraire, 'numflat': numflat, 'credits': credits,
-          'ledgers': ledgers, 'vars': vars_}
+          'ledgers': ledgers, 'vars': vars_,
+          'queried': sorted({'%s_%s' % (st['local'], st['foreign']) for st in prog if st.get('op') == 'CrossRate'})}
     events.append(ev)
     info.update(sfc_detail=sfc_detail, closure=cl, meaning_bad=meaning_bad, rows_bad=rows_bad)
     return events, info
@@ -454,6 +459,14 @@ def sample_behaviours(behs, bps, k, seed):
     return out
 
 
+def case_seed(seed, decl):
+    """Parameters are drawn per (blueprint, seed); every sampled declaration order gets a seed of its own, so that a rare
+    draw (a tax rate of zero, say) cannot hit ALL the builds of the one blueprint that is about taxes.  The pair of builds
+    that is compared (C08, C18) always shares one seed."""
+    import zlib
+    return int(seed) * 1000 + zlib.crc32(repr(list(decl)).encode()) % 997
+
+
 def run_property(rep, prop, clause_prefixes=None, quick_builds=90):
     """Common body of the C01 / C04 / C05 / C07 checks."""
     clause_prefixes = clause_prefixes or [prop + '_']
@@ -465,7 +478,9 @@ def run_property(rep, prop, clause_prefixes=None, quick_builds=90):
         chosen = sample_behaviours(behs, bps, 2500, rep.seed)
     rep.extra['behaviours_emitted_by_tlc'] = len(behs)
     rep.extra['behaviours_rebuilt'] = len(chosen)
-    jobs = [(bps[b['name']], b['decl'], rep.seed, HORIZON, None) for b in chosen]
+    for b in chosen:
+        b['seed'] = case_seed(rep.seed, b['decl'])
+    jobs = [(bps[b['name']], b['decl'], b['seed'], HORIZON, None) for b in chosen]
     results = observe_many(jobs)
     judge(rep, prop, clause_prefixes, chosen, results)
     # code -> spec on models the machinery did not design: the repository's own example scripts
@@ -488,7 +503,7 @@ def judge(rep, prop, clause_prefixes, chosen, results):
     for i, (beh, (events, info)) in enumerate(zip(chosen, results)):
         v = verdicts[i]
         clauses = [c for c in v.split(':', 1)[1].split(',') if c]
-        case = {'name': beh['name'], 'decl': beh['decl'], 'seed': rep.seed}
+        case = {'name': beh['name'], 'decl': beh['decl'], 'seed': beh.get('seed', rep.seed)}
         for c in clauses:
             if any(c.startswith(p) for p in clause_prefixes):
                 detail = {k: info.get(k) for k in ('error', 'sfc_detail', 'credit_detail', 'projection_errors', 'closure', 'meaning_bad', 'rows_bad') if info.get(k)}
@@ -518,7 +533,7 @@ def replay_case(prop, clause_prefixes, path):
     bps, behs = generate(rep, 'MC_ModelBuild_quick.cfg')
     if case['name'] not in bps:
         bps, behs = generate(rep, 'MC_ModelBuild_thorough.cfg')
-    beh = {'name': case['name'], 'decl': case['decl']}
+    beh = {'name': case['name'], 'decl': case['decl'], 'seed': case.get('seed', 0)}
     results = observe_many([(bps[case['name']], case['decl'], case.get('seed', 0), HORIZON, None)])
     judge(rep, prop, clause_prefixes, [beh], results)
     print(json.dumps({'case': case, 'events': results[0][0]}, default=str)[:3000])
